@@ -1,6 +1,9 @@
 // Reader / writer rigs: every library-provided reader and writer behind one small interface, plus the
 // scripted, call-logging, fault-injecting probe reader/writer used for C10/C15/C16.
 #pragma once
+#include <istream>
+#include <streambuf>
+#include <cstring>
 #include <memory>
 #include <functional>
 #include <fstream>
@@ -253,6 +256,34 @@ struct RStr {
     std::streamoff p = st.tellg();
     return p < 0 ? len : (size_t)p;
   }
+  static int trunc_error() { return (int)nop::ErrorStatus::StreamError; }
+};
+// a forward-only source behind an istream (a pipe, a socket, a decompressing filter): no seeking, no get area; the StreamReader
+// can only consume what it reads
+struct FwdBuf : std::streambuf {
+  std::string data;
+  size_t pos = 0;
+  int_type underflow() override { return pos < data.size() ? traits_type::to_int_type(data[pos]) : traits_type::eof(); }
+  int_type uflow() override { return pos < data.size() ? traits_type::to_int_type(data[pos++]) : traits_type::eof(); }
+  std::streamsize xsgetn(char* p, std::streamsize n) override {
+    const size_t k = std::min<size_t>((size_t)n, data.size() - pos);
+    if (k) memcpy(p, data.data() + pos, k);
+    pos += k;
+    return (std::streamsize)k;
+  }
+};
+struct FwdIStream : std::istream {
+  FwdBuf buf;
+  explicit FwdIStream(const std::string& s) : std::istream(&buf) { buf.data = s; }
+};
+struct RStrFwd {
+  static const char* name() { return "StreamReader<forward-only stream>"; }
+  static const char* family() { return "stream"; }
+  static constexpr int lacks = CapHandle;
+  nop::StreamReader<FwdIStream> r;
+  RStrFwd(const uint8_t* d, size_t n) : r(std::string(reinterpret_cast<const char*>(d), n)) {}
+  template <class T> St read(T* v) { nop::Deserializer<nop::StreamReader<FwdIStream>*> s{&r}; return s.Read(v); }
+  size_t consumed() { return r.stream().buf.pos; }
   static int trunc_error() { return (int)nop::ErrorStatus::StreamError; }
 };
 struct RFile {
